@@ -59,6 +59,30 @@ theorem text_eq {χ : Type} (chars : Nat → χ) (C : Nat) (hC : 0 < C) (am : Li
     (engineLine C am).map chars = (collapse (C - 1) am).map chars := by
   rw [engineLine_eq C hC]
 
+/-- The greedy transcription never contains the blank. -/
+theorem collapse_no_blank (blank : Nat) (am : List Nat) : ∀ x ∈ collapse blank am, x ≠ blank := by
+  rw [← standalone_eq]; intro x hx; simpa [standalone] using (List.mem_filter.1 hx).2
+
+/-- ... contains only classes that are the arg-max of some frame, and is never longer than the line
+has frames. -/
+theorem collapse_sub (blank : Nat) (am : List Nat) :
+    (∀ x ∈ collapse blank am, x ∈ am) ∧ (collapse blank am).length ≤ am.length := by
+  rw [← standalone_eq]
+  refine ⟨fun x hx => groupHeads_mem am x (List.mem_filter.1 hx).1, ?_⟩
+  exact Nat.le_trans (List.length_filter_le _ _) (groupHeads_length_le am)
+
+/-- A line whose every frame prefers the blank decodes to the empty transcription. -/
+theorem collapse_all_blank (blank : Nat) (am : List Nat) (h : ∀ x ∈ am, x = blank) :
+    collapse blank am = [] := by
+  rw [← standalone_eq, standalone, List.filter_eq_nil_iff]
+  intro x hx; simp [h x (groupHeads_mem am x hx)]
+
+/-- The engine's index pipeline inherits all of it (blank = last class). -/
+theorem engineLine_clean (C : Nat) (hC : 0 < C) (am : List Nat) :
+    (∀ x ∈ engineLine C am, x ≠ C - 1 ∧ x ∈ am) ∧ (engineLine C am).length ≤ am.length := by
+  rw [engineLine_eq C hC]
+  exact ⟨fun x hx => ⟨collapse_no_blank _ _ x hx, (collapse_sub _ _).1 x hx⟩, (collapse_sub _ _).2⟩
+
 /-! Non-vacuity: first frame non-blank, repeats split by blank, trailing blank, last class next to blank. -/
 example : engineLine 3 [0, 0, 2, 0, 1, 1, 2] = [0, 0, 1] := by decide
 example : collapse 2 [0, 0, 2, 0, 1, 1, 2] = [0, 0, 1] := by decide
